@@ -154,7 +154,12 @@ def unquoted_strings(d):
         extra += ["a+b", "x+", "C++"]
     if d == "default":
         extra += ["αβ", "naïve"]
-    return st.one_of(ident, ident, st.sampled_from(extra)).map(
+    # words over the unrestricted characters: a letter first (so it cannot be a
+    # number or a date), no comment delimiter, no dash at the end
+    free = st.builds(lambda a, b: a + b, st.sampled_from("abXY"),
+                     st.text(alphabet="abXY019_.:/$@?^`\\-", max_size=9)).filter(
+        lambda w: not w.endswith("-") and "//" not in w and not_reserved(w))
+    return st.one_of(ident, ident, st.sampled_from(extra), free).map(
         lambda s: (s, ("str", s)))
 
 
@@ -217,8 +222,9 @@ def temporals(d):
         kind = draw(st.sampled_from(["date", "doy", "time", "dt", "dtdoy"]))
         y = draw(st.sampled_from([1, 999, 1000, 1999, 2000, 2024, 9999]))
         date = draw(st.dates(dtm.date(y, 1, 1), dtm.date(y, 12, 31)))
-        h, m, s = draw(st.integers(0, 23)), draw(st.integers(0, 59)), \
-            draw(st.integers(0, 59))
+        h, m, s = draw(st.one_of(st.integers(0, 23), st.sampled_from([0, 23]))), \
+            draw(st.one_of(st.integers(0, 59), st.sampled_from([0, 59]))), \
+            draw(st.one_of(st.integers(0, 59), st.sampled_from([0, 0, 59])))
         tform = draw(st.sampled_from(["hm", "hms", "hmsf"]))
         frac = draw(st.sampled_from(["5", "25", "123", "000", "100"]))
         if d in ("ODL", "ISISv", "default"):
